@@ -838,8 +838,9 @@ class Path:
                 return
             g = node.generators[i]
             it_ = self.ev(g.iter, inner)
-            if isinstance(it_, SymSet):   # absnodes: `f(x) for x in <symbolic set>` (for any / all)
+            if isinstance(it_, (SymSet, ufmaps.SymRow)):   # absnodes: `f(x) for x in <symbolic set>` (for any / all)
                 from . import absnodes
+                it_ = absnodes.as_symset(it_)
                 raise absnodes.CompOverSymSet(absnodes.comp_over_symset(self, node, fr, it_))
             for item in self.iterate(it_):
                 self.assign(g.target, item, inner)
@@ -1427,6 +1428,9 @@ class Path:
                 return True
             return simp(z3.And([as_z3bool(r) for r in rs]))
         if isinstance(a, SymFloat) or isinstance(b, SymFloat):
+            for x_, y_ in ((a, b), (b, a)):   # absnodes (C07): v == 0 for a symbolic float (IEEE: -0.0 == 0, NaN != 0)
+                if isinstance(x_, SymFloat) and isinstance(y_, (int, float)) and not isinstance(y_, bool) and not is_z3(y_) and y_ == 0:
+                    return self.ex.intrinsics.float_compare_zero(self, 'Eq', x_)
             raise Unsupported('symbolic float equality')
         if (isinstance(a, float) and (is_sym_int(b) or is_sym_real(b))) or \
                 (isinstance(b, float) and (is_sym_int(a) or is_sym_real(a))):
